@@ -23,6 +23,8 @@ fails the spelling is left alone (the engines then say `undecided`, never a wron
 import ast
 import copy
 
+from .known_names import KNOWN
+
 OPS_BIN = {"add": ast.Add, "sub": ast.Sub, "mul": ast.Mult, "truediv": ast.Div, "floordiv": ast.FloorDiv, "mod": ast.Mod,
            "or_": ast.BitOr, "and_": ast.BitAnd, "xor": ast.BitXor, "pow": ast.Pow, "matmul": ast.MatMult,
            "lshift": ast.LShift, "rshift": ast.RShift}
@@ -130,11 +132,21 @@ def apply_lambda(lam, args, keywords=()):
         return ast.Call(func=copy.deepcopy(inner), args=[copy.deepcopy(x) for x in fixed] + list(args),
                         keywords=[copy.deepcopy(k) for k in kws] + list(keywords))
     a = lam.args
-    if a.vararg or a.kwarg or a.kwonlyargs or keywords:
+    if a.kwarg or a.kwonlyargs or keywords:
         return None
     params = [x.arg for x in a.posonlyargs + a.args]
     defaults = [None] * (len(params) - len(a.defaults)) + list(a.defaults)
-    if len(args) > len(params) or any(isinstance(x, ast.Starred) for x in args):
+    if any(isinstance(x, ast.Starred) for x in args):
+        return None
+    extra = None
+    if a.vararg:
+        if len(args) < len(params):
+            return None
+        extra = list(args[len(params):])
+        args = list(args[:len(params)])
+        if not all(_simple(x) for x in extra):
+            return None
+    if len(args) > len(params):
         return None
     actual = list(args) + defaults[len(args):]
     if any(x is None for x in actual):
@@ -145,9 +157,26 @@ def apply_lambda(lam, args, keywords=()):
             return None
     # no capture: names the body binds itself must not occur free in the arguments
     bound = _bound_in(body)
-    if any(bound & _free(x) for x in actual):
+    if any(bound & _free(x) for x in actual + (extra or [])):
         body = _rename_bound(body)
-    return _Subst(dict(zip(params, actual))).visit(body)
+    mapping = dict(zip(params, actual))
+    if a.vararg:
+        va = a.vararg.arg
+
+        class Splice(ast.NodeTransformer):                    # f(*args) -> f(x, y)
+            def visit_Call(self, n):
+                self.generic_visit(n)
+                new_args = []
+                for x in n.args:
+                    if isinstance(x, ast.Starred) and isinstance(x.value, ast.Name) and x.value.id == va:
+                        new_args.extend(copy.deepcopy(e) for e in extra)
+                    else:
+                        new_args.append(x)
+                n.args = new_args
+                return n
+        body = Splice().visit(body)
+        mapping[va] = ast.Tuple(elts=[copy.deepcopy(e) for e in extra], ctx=ast.Load())
+    return _Subst(mapping).visit(body)
 
 
 def _lam(params, body):
@@ -217,7 +246,7 @@ def _expr_helper(fn):
     """lambda for `def f(p..): [docstring] return e`, for generator helpers made of for / if nests around yields, and
     for first-match search loops; None otherwise"""
     a = fn.args
-    if a.vararg or a.kwarg or a.kwonlyargs or fn.decorator_list:
+    if a.kwarg or a.kwonlyargs or fn.decorator_list:
         return None
     body = list(fn.body)
     if body and isinstance(body[0], ast.Expr) and isinstance(body[0].value, ast.Constant) and isinstance(body[0].value.value, str):
@@ -486,6 +515,11 @@ class _Reduce(ast.NodeTransformer):
             return ast.copy_location(ast.GeneratorExp(elt=_name(b), generators=[
                 ast.comprehension(target=ast.Name(id=a, ctx=ast.Store()), iter=node.args[0], ifs=[], is_async=0),
                 ast.comprehension(target=ast.Name(id=b, ctx=ast.Store()), iter=_name(a), ifs=[], is_async=0)]), node)
+        if isinstance(f, ast.Name) and f.id == "getattr" and len(node.args) == 2 and not node.keywords \
+                and isinstance(node.args[1], ast.Constant) and isinstance(node.args[1].value, str) \
+                and node.args[1].value.isidentifier() and "getattr" not in self.shadow[-1]:
+            self.changed = True
+            return ast.copy_location(ast.Attribute(value=node.args[0], attr=node.args[1].value, ctx=ast.Load()), node)
         r = self._reduce_call(node)
         if r is not None:
             self.changed = True
@@ -702,11 +736,227 @@ class _Statements(ast.NodeTransformer):
         return [st]
 
 
+class _ClassTable:
+    """the classes of one module: bases, linearisation, subclasses, methods, class-level constants (closed world: no
+    subclass outside the module overrides a private helper or a hook table)"""
+
+    def __init__(self, tree):
+        self.classes = {c.name: c for c in tree.body if isinstance(c, ast.ClassDef)}
+        self.stored_attrs = {t.attr for n in ast.walk(tree) if isinstance(n, (ast.Assign, ast.AugAssign, ast.AnnAssign, ast.Delete))
+                             for tt in (n.targets if isinstance(n, (ast.Assign, ast.Delete)) else [n.target])
+                             for t in ast.walk(tt) if isinstance(t, ast.Attribute)}
+        self.strings = {n.value for n in ast.walk(tree) if isinstance(n, ast.Constant) and isinstance(n.value, str)}
+
+    def bases(self, c):
+        return [b.id for b in self.classes[c].bases if isinstance(b, ast.Name) and b.id in self.classes]
+
+    def mro(self, c):
+        out = []
+
+        def go(x):
+            if x not in out:
+                out.append(x)
+                for b in self.bases(x):
+                    go(b)
+        go(c)
+        return out
+
+    def subclasses(self, c):
+        return [k for k in self.classes if k != c and c in self.mro(k)]
+
+    def method(self, c, name):
+        for st in self.classes[c].body:
+            if isinstance(st, ast.FunctionDef) and st.name == name:
+                return st
+        return None
+
+    def const(self, c, name):
+        for st in self.classes[c].body:
+            if isinstance(st, ast.Assign) and len(st.targets) == 1 and isinstance(st.targets[0], ast.Name) \
+                    and st.targets[0].id == name:
+                return st.value
+        return None
+
+    def resolve(self, c, name, what):
+        """(defining class, node) of `name` looked up from class c; None when a subclass of c defines it too (the
+        receiver may be an instance of that subclass)"""
+        get = self.method if what == "method" else self.const
+        if name.startswith("__") and not name.endswith("__"):
+            node = get(c, name)                        # name-mangled: private to the lexically enclosing class
+            return (c, node) if node is not None else None
+        if any(self.method(k, name) is not None or self.const(k, name) is not None for k in self.subclasses(c)):
+            return None
+        for k in self.mro(c):
+            node = get(k, name)
+            if node is not None:
+                return (k, node)
+            if self.method(k, name) is not None or self.const(k, name) is not None:
+                return None
+        return None
+
+
+def _kind_of(fn):
+    names = [d.id for d in fn.decorator_list if isinstance(d, ast.Name)]
+    if len(names) != len(fn.decorator_list):
+        return None
+    if not names:
+        return "method"
+    if names == ["staticmethod"]:
+        return "static"
+    if names == ["classmethod"]:
+        return "class"
+    return None
+
+
+def _constant_like(e, classes):
+    if isinstance(e, ast.Constant):
+        return True
+    if isinstance(e, ast.Name):
+        return True
+    if isinstance(e, ast.Attribute):
+        return _constant_like(e.value, classes)
+    if isinstance(e, ast.Tuple):
+        return all(_constant_like(x, classes) for x in e.elts)
+    if isinstance(e, ast.UnaryOp):
+        return _constant_like(e.operand, classes)
+    if isinstance(e, ast.BinOp):
+        return _constant_like(e.left, classes) and _constant_like(e.right, classes)
+    return False
+
+
+class _MethodInline(ast.NodeTransformer):
+    """inside the methods of a class: `self._h(x)` -> the body of the private expression helper `_h` (when no subclass
+    overrides it), `Cls._h(x)` likewise for static helpers, `self.TABLE` / `cls.TABLE` / `Cls.TABLE` -> the immutable
+    class-level constant (a tuple of classes, a number ...) it names"""
+
+    def __init__(self, table):
+        self.t = table
+        self.cls = None
+        self.recv = None        # (name of self / cls parameter, "self" | "cls") of the method being visited
+        self.changed = False
+        self.active = set()
+
+    def visit_ClassDef(self, node):
+        saved = self.cls
+        self.cls = node.name if node.name in self.t.classes and self.t.classes[node.name] is node else None
+        self.generic_visit(node)
+        self.cls = saved
+        return node
+
+    def visit_FunctionDef(self, node):
+        saved = self.recv
+        if self.cls is not None and node in self.t.classes[self.cls].body:
+            kind = _kind_of(node)
+            first = (node.args.posonlyargs + node.args.args)[0].arg if (node.args.posonlyargs + node.args.args) else None
+            stores = {n.id for n in ast.walk(node) if isinstance(n, ast.Name) and isinstance(n.ctx, (ast.Store, ast.Del))}
+            if first is not None and first not in stores:
+                if node.name == "__new__" or kind == "class":
+                    self.recv = (first, "cls")
+                elif kind == "method" or any(isinstance(d, ast.Attribute) and d.attr == "setter" for d in node.decorator_list) \
+                        or any(isinstance(d, ast.Name) and d.id == "property" for d in node.decorator_list):
+                    self.recv = (first, "self")
+                else:
+                    self.recv = None
+            else:
+                self.recv = None
+        self.generic_visit(node)
+        self.recv = saved
+        return node
+
+    def _owner(self, e):
+        """class from which an attribute of `e` is looked up, and how the receiver is spelled"""
+        if isinstance(e, ast.Name):
+            if self.recv is not None and e.id == self.recv[0] and self.cls is not None:
+                return self.cls, self.recv[1]
+            if e.id in self.t.classes:
+                return e.id, "classname"
+        return None, None
+
+    def visit_Attribute(self, node):
+        self.generic_visit(node)
+        if not isinstance(node.ctx, ast.Load) or node.attr in self.t.stored_attrs:
+            return node
+        owner, how = self._owner(node.value)
+        if owner is None:
+            return node
+        if how == "classname":
+            # Cls.X: looked up from Cls upwards (no dynamic receiver)
+            for k in self.t.mro(owner):
+                v = self.t.const(k, node.attr)
+                if v is not None:
+                    break
+                if self.t.method(k, node.attr) is not None:
+                    return node
+            else:
+                return node
+        else:
+            r = self.t.resolve(owner, node.attr, "const")
+            if r is None:
+                return node
+            v = r[1]
+        if v is not None and _constant_like(v, self.t.classes) and not isinstance(v, ast.Name):
+            self.changed = True
+            return ast.copy_location(copy.deepcopy(v), node)
+        return node
+
+    def visit_Call(self, node):
+        self.generic_visit(node)
+        f = node.func
+        if not isinstance(f, ast.Attribute) or not f.attr.startswith("_") or (f.attr.startswith("__") and f.attr.endswith("__")) \
+                or f.attr in KNOWN:
+            return node
+        owner, how = self._owner(f.value)
+        if owner is None:
+            return node
+        if how == "classname":
+            found = None
+            for k in self.t.mro(owner):
+                m = self.t.method(k, f.attr)
+                if m is not None:
+                    found = (k, m)
+                    break
+            r = found
+        else:
+            r = self.t.resolve(owner, f.attr, "method")
+        if r is None:
+            return node
+        k, m = r
+        kind = _kind_of(m)
+        if kind is None or (k, m.name) in self.active:
+            return node
+        if how == "classname" and kind == "method":
+            return node                       # Cls.method(obj, ..): left alone
+        bare = copy.deepcopy(m)
+        bare.decorator_list = []
+        lam = _expr_helper(bare)
+        if lam is None:
+            return node
+        args = list(node.args)
+        if kind == "method":
+            args = [f.value] + args
+        elif kind == "class":
+            args = [f.value if how in ("cls", "classname") else ast.Attribute(value=f.value, attr="__class__", ctx=ast.Load())] + args
+        r2 = apply_lambda(lam, args, node.keywords)
+        if r2 is None:
+            return node
+        # the helper was written inside class k: its own name-mangled references stay meaningful only there
+        if k != self.cls and any(isinstance(n, ast.Attribute) and n.attr.startswith("__") and not n.attr.endswith("__")
+                                 for n in ast.walk(r2)):
+            return node
+        self.changed = True
+        self.active.add((k, m.name))
+        try:
+            r2 = self.visit(r2)
+        finally:
+            self.active.discard((k, m.name))
+        return ast.copy_location(r2, node)
+
+
 def normalise(tree):
     # module-level expression helpers (private names only: a public function is an interface the rules may anchor on)
     helpers = {}
     for st in tree.body:
-        if isinstance(st, ast.FunctionDef) and st.name.startswith("_") and not st.name.startswith("__"):
+        if isinstance(st, ast.FunctionDef) and st.name.startswith("_") and not st.name.startswith("__") and st.name not in KNOWN:
             lam = _expr_helper(st)
             if lam is not None and sum(1 for x in tree.body if isinstance(x, (ast.FunctionDef, ast.ClassDef, ast.Assign))
                                        and getattr(x, "name", None) == st.name) == 1:
@@ -717,7 +967,9 @@ def normalise(tree):
         tree = red.visit(tree)
         stm = _Statements()
         tree = stm.visit(tree)
-        if not (red.changed or stm.changed):
+        mi = _MethodInline(_ClassTable(tree))
+        tree = mi.visit(tree)
+        if not (red.changed or stm.changed or mi.changed):
             break
         for nm in list(helpers):
             r2 = _Reduce({k: v for k, v in helpers.items() if k != nm})
